@@ -1,0 +1,72 @@
+//go:build verif
+// +build verif
+
+// Verification hook (add-only, compiled only with -tags verif): lets an external harness drive the
+// group chain alone (no block chain, no network) and reach its unexported remove/restart paths.
+// Nothing here changes behaviour of the code under test; every function only calls it.
+package core
+
+import (
+	"strconv"
+
+	"com.tuntun.rangers/node/src/common"
+	"com.tuntun.rangers/node/src/middleware/log"
+	"com.tuntun.rangers/node/src/middleware/types"
+)
+
+// VerifGCInit sets the loggers and the consensus helper the group chain reads and runs initGroupChain()
+// on the store of the current working directory (storage<instance>/...). The result is core.GetGroupChain().
+func VerifGCInit(helper types.ConsensusHelper) {
+	idx := strconv.Itoa(common.InstanceIndex)
+	if logger == nil {
+		logger = log.GetLoggerByIndex(log.CoreLogConfig, idx)
+	}
+	if syncLogger == nil {
+		syncLogger = log.GetLoggerByIndex(log.SyncLogConfig, idx)
+	}
+	consensusHelper = helper
+	initGroupChain()
+}
+
+// VerifGCShutdown closes the stores held by the group chain (the shared LevelDB instance and the
+// joined-groups LevelDB) and forgets the in-memory mirror, as a process exit would.
+func VerifGCShutdown() {
+	if groupChainImpl == nil {
+		return
+	}
+	groupChainImpl.Close()
+	groupChainImpl.joinedGroups.Close()
+	groupChainImpl = nil
+}
+
+// VerifGCRestart = process exit followed by initGroupChain() on the same files.
+func VerifGCRestart() {
+	VerifGCShutdown()
+	initGroupChain()
+}
+
+// VerifGCRemoveLast calls the unexported remove on the current last group, under the chain lock
+// (the way removeFromCommonAncestor holds it).
+func VerifGCRemoveLast() bool {
+	chain := groupChainImpl
+	chain.lock.Lock()
+	defer chain.lock.Unlock()
+	return chain.remove(chain.lastGroup)
+}
+
+// VerifGCRemoveFromCommonAncestor runs the fork-switch removal loop down to the group stored at the
+// given height (which must exist).
+func VerifGCRemoveFromCommonAncestor(height uint64) bool {
+	chain := groupChainImpl
+	anc := chain.GetGroupByHeight(height)
+	if anc == nil {
+		return false
+	}
+	chain.removeFromCommonAncestor(anc)
+	return true
+}
+
+// VerifGCSyncGroupsByHeight exposes GetSyncGroupsByHeight (exported method of the unexported type).
+func VerifGCSyncGroupsByHeight(height uint64, limit int) []*types.Group {
+	return groupChainImpl.GetSyncGroupsByHeight(height, limit)
+}
